@@ -57,6 +57,8 @@ func matchValueNil(p *Prog, v ssa.Value) condMatch {
 
 func runC05(c *Check, a *Analysis) {
 	p := c.P
+	ruleLockBalance(c, a, "R-LOCK-BALANCE", "ServerContext.recving")
+	rulePipeliningQueues(c, a, "R-PIPELINING-QUEUES")
 	ls := a.Locks()
 	sc := siteCounter{}
 
